@@ -9,9 +9,11 @@ import vlib
 PROPERTIES = ["C01", "C02", "C03", "C04", "C09"]
 
 W1 = {"stakers": 2, "operators": 2, "assets": ["lst"], "holdops": ["o1"],
-      "scales": ["1", "1000000", "1000003", "700000000000000003", "1000000000000000000000000000003"], "blocksPer": 5, "modelPrec": 100}
+      "scales": ["1", "1000000", "1000003", "700000000000000003", "1000000000000000000000000000003"], "blocksPer": 5, "modelPrec": 100,
+      "baseHeights": [1, 14, 254, 4094]}
 W2 = {"stakers": 3, "operators": 3, "assets": ["nat", "lst", "nst"], "holdops": ["o1"],
-      "scales": ["1", "1000003", "700000000000000003", "1000000000000000000000000000003"], "blocksPer": 5, "modelPrec": 100}
+      "scales": ["1", "1000003", "700000000000000003", "1000000000000000000000000000003"], "blocksPer": 5, "modelPrec": 100,
+      "baseHeights": [1, 14, 254, 4094]}
 
 W1P = dict(W1, path="precompile", scales=["1", "1000003"])
 
@@ -55,7 +57,7 @@ assoc_with_position assoc_refused_with_position dissoc_with_position hold_releas
 eb_release_fully_slashed eb_release_native eb_requeue_held eb_release_after_requeue slash_partial slash_full slash_wipes_pool
 slash_hits_pending_record slash_record_to_zero slash_spares_older_record slash_multi_asset slash_pool_fully_unbonding_other_bonded
 slash_partial_pool_fully_unbonding_other_bonded slash_partial_hits_pending_record
-slash_caps_reduced_record slash_two_records slash_record_started_at_infraction_height
+slash_caps_reduced_record slash_two_records slash_record_started_at_infraction_height slash_record_started_after_infraction_height
 slash_infraction_at_current_height slash_replay slash_factor_above_one slash_zero_value_operator nst_up
 nst_down_within_withdrawable nst_down_ends_inside_pending_records nst_down_reaches_shares nst_down_shares_two_operators
 nst_down_skips_zero_share_row msgdel_two_entries msgdel_second_entry_fails msgund_two_operators
@@ -193,9 +195,13 @@ def _run(tier, seed, harness, d):
             # unit amounts, amounts whose products need rounding, and amounts around 10^30 where a
             # divide-before-multiply or a mis-sized overflow guard loses whole units
             for wi, hcfg in enumerate(hcfgs):
-                for si, sc in enumerate(["1000003"] if hcfg.get("path") == "precompile" else hcfg["scales"] + GOAL_EXTRA_SCALES):
+                # ... and from start heights on both sides of a hex digit-count boundary (record keys embed
+                # heights as unpadded hex: 0xe -> 0x18, 0xfe -> 0x108)
+                variants = [("1000003", 14)] if hcfg.get("path") == "precompile" else \
+                    list(zip(hcfg["scales"] + GOAL_EXTRA_SCALES, [14, 1, 254, 4094]))
+                for si, (sc, base) in enumerate(variants):
                     wname = f"goal:{cfg}:{wi}:{si}"
-                    worlds[wname] = dict(hcfg=dict(hcfg, scales=[sc]))
+                    worlds[wname] = dict(hcfg=dict(hcfg, scales=[sc], baseHeights=[base]))
                     for ci in range(0, len(behs), chunk):
                         jobs.append((wname, ci, behs[ci:ci + chunk]))
         for wname, behs in gens:
